@@ -14,13 +14,19 @@
     Q4  after a commit none of the transactions the block contained is queued (hence none is
         offered again), whatever the block did to the nonces — as found an included-but-invalid
         transaction stayed pending (counter-theorem, replayed on the code).
-  PARTIAL (decided per run by the engine, not proved): that what is offered per account is
-  CONSECUTIVE from the account's current nonce; that the lookup cache equals the queues (as found
-  it leaked: counter-theorem); that nothing accepted vanishes below capacity.
+    Q5  in every reachable state what is offered per account is CONSECUTIVE from the account's
+        current nonce (Lemmas/PoolConsec.lean: `PCons` through every operation; the commit
+        re-establishes it from scratch, whatever the block contained and whatever nonces it left
+        behind) — as found `demoteUnexecutables` looked for a gap in front of a pending queue only:
+        a block with a later transaction of an account but not the ones before it left a hole, and
+        the pool offered nonces 1, 3 (counter-theorem, replayed on the code).
+  PARTIAL (decided per run by the engine, not proved): that the lookup cache equals the queues (as
+  found it leaked: counter-theorem); that nothing accepted vanishes below capacity.
   NOT covered: the time-based eviction loop, the broadcast queue, the gemmill FIFO mempool
   (gemmill/mempool), concurrent submitters against the commit path (the pool is one mutex).
 -/
 import AnnVerif.Lemmas.PoolMem
+import AnnVerif.Lemmas.PoolConsec
 import AnnVerif.Model.Fifo
 namespace AnnVerif.C19
 open AnnVerif AnnVerif.Pool
@@ -102,6 +108,48 @@ theorem stays_within_bounds (pl wl : Nat) (ops : List Op) (hw : ∀ op ∈ ops, 
   rw [l1] at h1; rw [l2] at h2
   exact ⟨h1, h2⟩
 
+/-- Q5: what is offered for one account is consecutive from the account's current nonce -/
+theorem reachable_pcons (pl wl : Nat) : ∀ (ops : List Op), (∀ op ∈ ops, wellFormedOp op) →
+    PCons (run { pendingLimit := pl, waitingLimit := wl } ops) := by
+  intro ops
+  unfold run
+  generalize hp : ({ pendingLimit := pl, waitingLimit := wl } : Pool) = p0
+  have h0 : Inv p0 ∧ PCons p0 := by
+    subst hp; exact ⟨inv_empty pl wl, fun a => by simp [Consec]⟩
+  clear hp
+  induction ops generalizing p0 with
+  | nil => intro _; exact h0.2
+  | cons op r ih =>
+    intro hw
+    simp only [List.foldl]
+    obtain ⟨h1, _, _⟩ := step_inv p0 op h0.1 (hw op (by simp))
+    refine ih _ ⟨h1, ?_⟩ (fun o ho => hw o (by simp [ho]))
+    cases op with
+    | submit t => exact submit_pcons {} p0 t h0.2
+    | admin id => exact submitAdmin_pcons p0 id h0.2
+    | commit inc ns => exact commit_pcons {} rfl p0 inc ns (fun a ha => (h0.1.supp a ha).1)
+    | flush => exact flush_pcons p0
+
+theorem offered_nonces_consecutive (pl wl : Nat) (ops : List Op) (hw : ∀ op ∈ ops, wellFormedOp op) (a : Nat) :
+    Consec ((run { pendingLimit := pl, waitingLimit := wl } ops).pending a)
+      (nonceOf (run { pendingLimit := pl, waitingLimit := wl } ops) a) :=
+  reachable_pcons pl wl ops hw a
+
+/-- `Consec` spelled out: the i-th transaction offered for the account carries nonce + i -/
+theorem consec_get : ∀ (q : Queue) (n : Nat), Consec q n → ∀ (i : Nat) (h : i < q.length), (q[i]'h).nonce = n + i := by
+  intro q
+  induction q with
+  | nil => intro n _ i h; simp at h
+  | cons t r ih =>
+    intro n hc i h
+    obtain ⟨h1, h2⟩ := hc
+    cases i with
+    | zero => simpa using h1
+    | succ j =>
+      have := ih (n + 1) h2 j (by simpa using h)
+      simp only [List.getElem_cons_succ]
+      omega
+
 /-- Q3: refused submissions, and they leave the pool as it was -/
 theorem exact_duplicate_refused (cfg : Cfg) (p : Pool) (t : Tx) (h : t.id ∈ p.all) :
     submit cfg p t = (p, .exist) := by
@@ -141,14 +189,28 @@ def wOps (cfg : Cfg) : Pool :=
   commit cfg p [1] [(0, 0)]
 
 theorem asFound_included_but_invalid_offered_again :
-    ((reapAll (wOps ⟨true, true, false, true⟩)).2.map (·.id)) = [1] ∧
+    ((reapAll (wOps ⟨true, true, false, true, true⟩)).2.map (·.id)) = [1] ∧
     ((reapAll (wOps {})).2.map (·.id)) = [] := by decide
+
+/-- account 0 has nonces 0..3 pending (1, 2, 3 waited for 0); a block contains the transactions with nonce 0 and 2 only
+    (the second one is invalid in it: the application nonce goes to 1). As found the pool then offers
+    nonces 1 and 3; repaired it offers 1 and keeps 3 waiting -/
+def gOps (cfg : Cfg) : Pool :=
+  let p := (submit cfg {} ⟨2, 0, 1⟩).1
+  let p := (submit cfg p ⟨3, 0, 2⟩).1
+  let p := (submit cfg p ⟨4, 0, 3⟩).1
+  let p := (submit cfg p ⟨1, 0, 0⟩).1
+  commit cfg p [1, 3] [(0, 1)]
+
+theorem asFound_offers_across_a_gap :
+    ((reapAll (gOps { demotesGaps := false })).2.map (·.nonce)) = [1, 3] ∧
+    ((reapAll (gOps {})).2.map (·.nonce)) = [1] ∧ ((gOps {}).waiting 0).map (·.nonce) = [3] := by decide
 
 /-- as found a second transaction for a pending nonce is accepted, dropped at once, and its hash
     stays in the lookup cache -/
 theorem asFound_same_nonce_accepted_and_leaked :
-    let p := (submit ⟨true, false, true, false⟩ {} ⟨1, 0, 0⟩).1
-    let r := submit ⟨true, false, true, false⟩ p ⟨2, 0, 0⟩
+    let p := (submit ⟨true, false, true, false, true⟩ {} ⟨1, 0, 0⟩).1
+    let r := submit ⟨true, false, true, false, true⟩ p ⟨2, 0, 0⟩
     r.2 = .ok ∧ r.1.all = [1, 2] ∧ (r.1.pending 0).map (·.id) = [1] ∧ (r.1.waiting 0).map (·.id) = [] := by decide
 
 /-- non-vacuity: gapped submissions wait, the gap closes, everything is promoted in order -/
